@@ -200,3 +200,24 @@ M('c08_idle_notified_in_reset', ['C08'], ['C08-R1', 'C08-R5'], 'reset() notifies
             self.probe.clear();
         }
         self.connection_state = ConnectionState::Connected;'''))
+
+# ---------------------------------------------------------------- C09
+M('c09_sender_addr_check_dropped', ['C09', 'C19'], ['C09-R3'], 'datagrams from another identity of the own address are processed',
+  (LIB, 'if header.src == self.identity || header.src.addr() == self.identity.addr() {', 'if header.src == self.identity {'))
+M('c09_inactive_payload_applied', ['C09'], ['C09-R4'], 'payload of an inactive sender is applied unless it is a TurnUndead',
+  (LIB, '        if !sender_is_active {\n', '        if !sender_is_active && message == Message::TurnUndead {\n'))
+M('c09_lost_conflict_counts_as_active', ['C09'], ['C09-R4'], 'a sender that lost the address conflict is treated as active',
+  (LIB, 'member::ConflictResult::Lost | member::ConflictResult::FailedCondition => false,', 'member::ConflictResult::FailedCondition => false,'))
+M('c09_remove_any_state', ['C09', 'C11', 'C08'], ['C09-R5', 'C08-R4'], 'forget-timer removes the record whatever its state',
+  (MEMBER, '.position(|member| &member.id == id && member.state == State::Down);', '.position(|member| &member.id == id);'))
+M('c09_none_when_condition_fails', ['C09'], ['C09-R1'], 'apply_existing_if reports "unknown" when the condition fails, so apply() registers a duplicate',
+  (MEMBER, '''            if !condition(known_member) {
+                return Some(ApplySummary {''', '''            if !condition(known_member) && known_member.incarnation == u16::MAX {
+                return None;
+            }
+            if !condition(known_member) {
+                return Some(ApplySummary {'''))
+M('c09_replaced_reports_new_id', ['C09', 'C08'], ['C09-R2'], 'Rename reports the new identity as the previous one',
+  (MEMBER, '                (true, ConflictResult::Replaced(update.id))', '                (true, ConflictResult::Replaced(known_member.id.clone()))'))
+M('c09_forget_from_elsewhere', ['C09', 'C11'], ['C09-R5'], 'Down records are also dropped when the probe wraps around',
+  (LIB, '        let probe_was_incomplete = !self.probe.validate();\n', '        let probe_was_incomplete = !self.probe.validate();\n        let _ = self.members.remove_if_down(&self.identity);\n'))
